@@ -199,6 +199,30 @@ impl<const PROBS_ARRAY_LEN: usize> BitTree<PROBS_ARRAY_LEN> {
     }
 }
 
+#[cfg(lzma_rs_verif)]
+impl<const PROBS_ARRAY_LEN: usize> BitTree<PROBS_ARRAY_LEN> {
+    /// The probabilities of this tree (verification hook).
+    pub fn verif_probs(&self) -> &[u16] {
+        &self.probs
+    }
+}
+
+#[cfg(lzma_rs_verif)]
+impl LenDecoder {
+    /// All probabilities in a fixed order (verification hook).
+    pub fn verif_dump(&self, out: &mut Vec<u16>) {
+        out.push(self.choice);
+        out.push(self.choice2);
+        for t in self.low_coder.iter() {
+            out.extend_from_slice(t.verif_probs());
+        }
+        for t in self.mid_coder.iter() {
+            out.extend_from_slice(t.verif_probs());
+        }
+        out.extend_from_slice(self.high_coder.verif_probs());
+    }
+}
+
 #[derive(Debug)]
 pub struct LenDecoder {
     choice: u16,
